@@ -14,8 +14,8 @@ from mc.oracle.exactnum import QA, F, frac_to_float
 LEVEL = 'exploration'
 EPS = np.finfo(float).eps
 METHODS = ['central', 'forward', 'backward', 'complex']
-RATIOS_Q = [1.6, 2.0, 3.0, 4.0, 1.2, 10.0]
-RATIOS_T = RATIOS_Q + [1.05, math.e / 2, math.pi / 2, 1.6 + 2.0 ** -30]
+RATIOS_Q = [1.6, 2.0, 3.0, 4.0, 1.2, 10.0, 0.5]
+RATIOS_T = RATIOS_Q + [0.625, 0.25, 1.05, math.e / 2, math.pi / 2, 1.6 + 2.0 ** -30]
 ZERO_TOL = 1e-12
 
 
